@@ -17,6 +17,13 @@ struct PrintMock : Print {
   size_t write(const uint8_t* p, size_t n) override { out.append((const char*)p, n); return n; }
 };
 
+// an output stream that cannot seek or tell (a socket, a pipe, a serial port): only overflow/xsputn
+struct SinkBuf : std::streambuf {
+  std::string out;
+  int_type overflow(int_type c) override { if (c != traits_type::eof()) out.push_back(char(c)); return c; }
+  std::streamsize xsputn(const char* p, std::streamsize n) override { out.append(p, size_t(n)); return n; }
+};
+
 // fmt: 0 compact JSON, 1 pretty JSON, 2 MessagePack
 static size_t ser_buf(int fmt, JsonVariantConst v, void* p, size_t n) {
   return fmt == 0 ? serializeJson(v, p, n) : fmt == 1 ? serializeJsonPretty(v, p, n) : serializeMsgPack(v, p, n);
@@ -48,6 +55,9 @@ static std::string handle(const std::vector<std::string>& a) {
     size_t m = measure(fmt, v);
     std::string res = hex(s1) + " " + std::to_string(n1) + " " + std::to_string(m) + " " + dump(v);
     if (os.str() != s1 || n2 != n1) res += " OSTREAM-DIFFERS";
+    { SinkBuf sb; std::ostream ns(&sb); size_t n9 = ser_to(fmt, v, ns);
+      if (sb.out != s1 || n9 != n1) res += " NONSEEKABLE-OSTREAM-DIFFERS";
+      if (fmt == 0) { SinkBuf sb2; std::ostream ns2(&sb2); ns2 << v; if (sb2.out != s1) res += " OSTREAM-INSERTER-DIFFERS"; } }
     if (cw.out != s1 || n3 != n1) res += " CUSTOMWRITER-DIFFERS";
     if (pm.out != s1 || n4 != n1) res += " PRINT-DIFFERS";
     {
